@@ -577,12 +577,34 @@ theorem entry_set (ls : List Text) (w : Nat) (t : Text) (hw : w < ls.length) :
     entry (ls.set w t) w = t := by
   simp [entry, List.getD, hw]
 
+/-- rendering the search field (loading its history) touches nothing but the field's working lines -/
+theorem renderField_frame (s : Sess) :
+    (renderField s).buf = s.buf ∧ (renderField s).field = s.field ∧
+    (renderField s).stext = s.stext ∧ (renderField s).sdir = s.sdir ∧
+    (renderField s).searching = s.searching ∧ (renderField s).fhist = s.fhist := by
+  unfold renderField
+  split <;> simp
+
 /-- every key keeps `0 ≤ working_index < len(lines)` and `0 ≤ cursor ≤ len(text)` -/
 theorem step_wf (eq : Char → Char → Bool) (vi : Bool) (s : Sess) (k : Key) (h : SessWF s) :
     SessWF (step eq vi s k) := by
   unfold SessWF at *
   cases k with
-  | start d => simp only [step]; split <;> exact h
+  | start d =>
+    simp only [step]
+    split
+    · exact h
+    · rw [(renderField_frame _).1]; exact h
+  | histPrev =>
+    simp only [step]
+    split
+    · split <;> exact h
+    · exact h
+  | histNext =>
+    simp only [step]
+    split
+    · split <;> exact h
+    · exact h
   | type c =>
     simp only [step]
     split
@@ -677,7 +699,10 @@ theorem backspace_frame (eq : Char → Char → Bool) (vi : Bool) (s : Sess)
 /-- starting a search moves nothing -/
 theorem start_frame (eq : Char → Char → Bool) (vi : Bool) (s : Sess) (d : Dir) :
     (step eq vi s (.start d)).buf = s.buf := by
-  simp only [step]; split <;> rfl
+  simp only [step]
+  split
+  · rfl
+  · exact (renderField_frame _).1
 
 /-- aborting moves nothing (Emacs mode; in Vi mode only the navigation-mode cursor fix applies) -/
 theorem abort_frame (eq : Char → Char → Bool) (vi : Bool) (s : Sess) :
@@ -690,7 +715,17 @@ theorem step_lines_frame (eq : Char → Char → Bool) (vi : Bool) (s : Sess) (k
     (hk : (∀ c, k ≠ .type c) ∨ s.searching = true) :
     (step eq vi s k).buf.lines = s.buf.lines := by
   cases k with
-  | start d => simp only [step]; split <;> rfl
+  | start d => rw [start_frame]
+  | histPrev =>
+    simp only [step]
+    split
+    · split <;> rfl
+    · rfl
+  | histNext =>
+    simp only [step]
+    split
+    · split <;> rfl
+    · rfl
   | type c =>
     rcases hk with hk | hk
     · exact absurd rfl (hk c)
@@ -980,6 +1015,18 @@ theorem step_search_sound (eq : Char → Char → Bool) (s : Sess) (k : Key) (hw
     rw [abort_frame]; simp
   | next n => left; simp [step]
   | prev n => left; simp [step]
+  | histPrev =>
+    left
+    simp only [step]
+    split
+    · split <;> rfl
+    · rfl
+  | histNext =>
+    left
+    simp only [step]
+    split
+    · split <;> rfl
+    · rfl
 
 /-- Vi mode: no key sequence whatsoever changes any text (printable keys in navigation mode are
     outside the model and leave the state alone) -/
